@@ -373,6 +373,42 @@ pub fn run(rep: &Arc<Report>) {
             }
         }
     });
+    // long names: every position x dialect x lengths on both sides of 64 / 128 / 256 (engines limit identifier lengths; the
+    // builder must not), plain, non-ASCII, and with a quote character where a cut at the limit would split its doubling.
+    // The first failing length of a (position, dialect, shape) is reported; not minimised character by character.
+    let long_cases = Counter::new();
+    for (pi, p) in poss.iter().enumerate() {
+        for d in crate::lex::DIALECTS {
+            for shape in 0..5usize {
+                for len in [62usize, 63, 64, 65, 127, 128, 129, 255, 256, 257] {
+                    let name: String = match shape {
+                        0 => "a".repeat(len),
+                        1 => "\u{e9}".repeat(len),
+                        2 => format!("{}\"b", "a".repeat(len - 2)),
+                        3 => format!("{}`b", "a".repeat(len - 2)),
+                        _ => format!("{}\"\"", "a".repeat(len - 2)),
+                    };
+                    long_cases.inc();
+                    match check_one(pi, p, d, &name, &engine_runs) {
+                        Ok(true) => evals.inc(),
+                        Ok(false) => na.inc(),
+                        Err((sig, det)) => {
+                            evals.inc();
+                            rep.raw_failures.inc();
+                            let det: String = det.chars().take(500).collect();
+                            rep.violation(Violation {
+                                key: format!("{}|{}|{}|long name shape {} of {} characters", p.name, d.name(), sig, shape, len),
+                                what: format!("{} on {}: a name of {} characters (shape {}: 0 plain, 1 non-ASCII, 2 .. 4 with quote characters at the end): {}", p.name, d.name(), len, shape, det),
+                                case: json!({"position": p.name, "dialect": d.name(), "name": name}),
+                            });
+                            break;
+                        }
+                    }
+                }
+            }
+        }
+    }
+    rep.set("long_name_cases", json!(long_cases.get()));
     // which (position, dialect) pairs are live
     let mut live = vec![];
     for (pi, p) in poss.iter().enumerate() {
